@@ -38,12 +38,15 @@ ADAPTERS = ["blockfrost", "ogmios_v5", "ogmios_v6", "kupo", "cardano_cli"]
 BF_BASE = "https://bf.stub/api"
 KUPO_BASE = "http://kupo.stub:1442"
 
-# reference-script languages each adapter can return (0 = native, 1..3 = Plutus)
-SCRIPT_OK = {"blockfrost": {0, 1, 2, 3}, "ogmios_v5": {1, 2}, "ogmios_v6": {1, 2, 3}, "kupo": {1, 2, 3},
-             "cardano_cli": {0, 1, 2}}
-# (adapter, language) whose response shape is documented offline (installed client library / the envelope naming
-# of the canned response) and on which the adapter raises: recorded findings
-FINDINGS = {("ogmios_v6", 0): "KF-C20-ogmios6-native-refscript", ("cardano_cli", 3): "KF-C20-cli-plutusv3-refscript"}
+# reference-script languages each adapter can return (0 = native, 1..3 = Plutus).  Ogmios v6 restores a native script
+# from the `cbor` member of `{"language": "native", "json", "cbor"}`, cardano-cli knows the PlutusScriptV1..V3 text
+# envelopes (both repaired in /repo: formerly KF-C20-ogmios6-native-refscript / KF-C20-cli-plutusv3-refscript); a
+# failure on these shapes is a plain violation
+SCRIPT_OK = {"blockfrost": {0, 1, 2, 3}, "ogmios_v5": {1, 2}, "ogmios_v6": {0, 1, 2, 3}, "kupo": {1, 2, 3},
+             "cardano_cli": {0, 1, 2, 3}}
+# (adapter, language) outside SCRIPT_OK whose response shape is documented offline (installed client library / the
+# envelope naming of the canned response) and on which the adapter raises: recorded findings.  None at present.
+FINDINGS = {}
 
 
 class StubError(Exception):
@@ -305,14 +308,22 @@ def lean_model(m, adapter):
     s = None
     if m["script"] is not None:
         sc = m["script"]
-        s = {"lang": str(sc["lang"]),
-             "body": {"json": enc(sc["native"])} if sc["lang"] == 0 else {"bytes": script_wire(sc, adapter)}}
+        if sc["lang"] != 0:
+            body = {"bytes": script_wire(sc, adapter)}
+        elif adapter == "ogmios_v6":    # reported by its serialised form; Ogmios' own JSON view travels in `aux`
+            body = {"bytes": NativeScript.from_dict(sc["native"]).to_cbor_hex()}
+        else:
+            body = {"json": enc(sc["native"])}
+        s = {"lang": str(sc["lang"]), "body": body}
     return {"txid": m["txid"], "index": str(m["index"]), "address": m["address"], "coin": m["coin"], "ma": m["ma"],
             "datum_hash": m["datum_hash"] if m["dform"] == "hash" else None, "datum": d, "script": s}
 
 
 def lean_aux(m):
-    return {"inline_hash": m["inline_hash"], "script_hash": m["script"]["hash"] if m["script"] else "00" * 28}
+    aux = {"inline_hash": m["inline_hash"], "script_hash": m["script"]["hash"] if m["script"] else "00" * 28}
+    if m["script"] and m["script"]["lang"] == 0:
+        aux["native_json"] = enc(native_ogmios(m["script"]["native"]))      # only the Ogmios v6 render shows it
+    return aux
 
 
 def script_wire(sc, adapter):
@@ -680,7 +691,9 @@ def model_image(mu):
     if mu["script"] is not None:
         lang = int(mu["script"]["lang"])
         body = mu["script"]["body"]
-        if "bytes" in body:
+        if "bytes" in body and lang == 0:   # Ogmios v6: the CBOR handed to NativeScript.from_cbor
+            s = {"lang": 0, "native": NativeScript.from_cbor(body["bytes"]).to_cbor_hex()}
+        elif "bytes" in body:
             s = {"lang": lang, "bytes": body["bytes"]}
         else:   # the JSON subtree handed to NativeScript.from_dict
             s = {"lang": 0, "native": NativeScript.from_dict(dec(body["json"])).to_cbor_hex()}
@@ -1041,7 +1054,9 @@ def corpus(rng):
     plain = {"txid": "ab" * 32, "index": 0, "address": "addr_test1vqqszqgpqyqszqgpqyqszqgpqyqszqgpqyqszqgpqyqszqgasfzjt",
              "coin": "2000000", "ma": [], "dform": "none", "datum_tree": None, "datum_hash": None,
              "inline_hash": "00" * 32, "script": None, "var": {"order": None, "empty_dot": False}}
-    # witnesses of the recorded findings: an ADA-only UTxO carrying a reference script
+    # an ADA-only UTxO carrying a reference script: a native script on Ogmios v6, a Plutus v3 script on cardano-cli.
+    # Ordinary supported shapes, judged like every other case (they were the witnesses of the findings
+    # KF-C20-ogmios6-native-refscript / KF-C20-cli-plutusv3-refscript until /repo was repaired)
     out.append({"kind": "valid", "adapter": "ogmios_v6", "utxos": [{**plain, "script": {
         "lang": 0, "native": {"type": "sig", "keyHash": "33" * 28}, "hash": "44" * 28, "form": "plain"}}]})
     out.append({"kind": "valid", "adapter": "cardano_cli", "utxos": [{**plain, "script": {
@@ -1076,7 +1091,8 @@ def run(ctx):
         "native scripts on cardano-cli (accept/reject compared only)",
         "a cardano-cli inline datum is reported as detailed-schema JSON: the returned datum is compared "
         "structurally with the generated datum, not byte-wise; `RawPlutusData.from_dict`, `NativeScript.from_dict`, "
-        "`Address.from_primitive` and `_try_fix_script` are outside the model (opaque payloads)",
+        "`NativeScript.from_cbor` (Ogmios v6), `Address.from_primitive` and `_try_fix_script` are outside the model "
+        "(opaque payloads)",
         "CPython's `bytes.fromhex` / `int` tolerate blanks and `_`; the model does not, and the malformed stream does "
         "not probe them",
     ]
